@@ -99,7 +99,7 @@ func genTokSpec(r *Rand, nCast int, label string, rich bool) TokSpec {
 	v.Relative = r.Chance(0.5)
 	v.Iat = []string{"", "none", "past", "future", "zero", "epoch", "neg", "y9999", "y2300"}[r.Intn(9)]
 	v.NonceLen = []int{0, 0, 12, 16, 32, -1}[r.Intn(6)]
-	v.ArgsVia = Pick(r, []string{"", "", "args", "builder", "include", "split"})
+	v.ArgsVia = Pick(r, []string{"", "", "args", "builder", "include", "split", "overlap"})
 	v.Meta = genMeta(r)
 	v.Cause = r.Chance(0.2)
 	return TokSpec{Kind: "inv", Inv: v}
